@@ -7,10 +7,13 @@ finish_deletions, kind changes, additions, modifications), upload_full_tree
 (`*_robustly` helpers, _force_clear), is_ignored (.bzrignore-upload), the
 marker file.
 
-T2: commit sequences over a namespace of 5 names (adds, deletes, content and
-mode changes, renames, moves between directories, swaps, rename chains, a
+T2: commit sequences over a namespace of 8 names - five letters and three names that need urlutils.escape (a
+space, a percent escape, a non-ASCII letter; the model sees order-preserving tokens) - (adds, deletes, content and
+mode changes, renames, moves between directories, swaps, rename chains and 3-cycles, a
 directory renamed together with something inside it, file<->dir<->symlink kind
-changes, an ignore list) are committed in a real 2a tree; after every commit
+changes, `.bzrignore` added / edited / removed / renamed, an ignore list of plain names or basename globs
+- the real Globster sees the pattern, model and oracle its fnmatch expansion over the namespace) are
+committed in a real 2a tree; after every commit
 (and for jumps back to earlier revisions = "after overwrite") the revision is
 uploaded with the real BzrUploader to a local directory transport -
 incrementally or with upload_full_tree onto the existing remote.  For every
@@ -19,17 +22,25 @@ uploader works from, the new tree and the ignore list, sends them to the Lean
 model (`uploadInc` / `uploadFull`) and compares the exception kind and the
 complete remote listing afterwards (temporary names renumbered in creation
 order through a recording transport proxy) - failing uploads included, so the
-model is tied to the code on the defective paths too.
+model is tied to the code on the defective paths too.  The HYPOTHESES of the upload theorems are
+evaluated by the model on the real data: every revision tree must be `treeWF` and every real delta in
+which nothing is renamed (outside ignored paths) and the special files are neither removed nor changed in kind
+must be `deltaOK` - so `incremental_upload_reaches_tree_partial` applies to exactly those uploads, and its
+conclusion (no error, remote = tree, ignored paths untouched) is what the oracle then observes.
 
 Oracle (independent of the model): after an upload that did not raise, the
 remote listing (kinds, contents, executable bits, link targets) minus the
-marker, `.bzrignore-upload` and ignored paths must equal the revision tree
+marker, the two special files (`.bzrignore`, `.bzrignore-upload`: full uploads skip them, incremental uploads
+copy them) and ignored paths must equal the revision tree
 minus the same; an upload that raises is a violation.  Ignored remote paths
-must be what they were before.  Violations are classified from the concrete
+must be what they were before - for incremental AND full uploads (a full upload may only clear what stands
+where the tree has a file or symlink).  Violations are classified from the concrete
 delta into the known-finding families listed in FAMILIES; anything else has
-family None - in particular DESIGN §7-F13 (nested renames) and the three symlink
-defects fixed by commit d95ca85 are plain violations if they return ("fix
-reverted" mutant checked).
+family None - in particular DESIGN §7-F13 (nested renames), the three symlink
+defects fixed by commit d95ca85 and the kind change below a renamed directory fixed by 95c7725 are plain
+violations if they return ("fix reverted" mutant checked).  Variants the model has and the check probes:
+rename discipline, robust symlinks, kind-change deletion path, URL-escaping of symlink paths (`badLinks`),
+tolerant deletion of a missing special file.
 
 Mutants this was built against (scratch worktree with the proposed fixes
 applied, so that the open families do not mask them); every one is caught with
@@ -53,6 +64,11 @@ sequences that run first:
    dir-swap-chmod-below, dir-replace-edit-below and by the generator ops dir+edit / dirswap+edit /
    dirreplace+edit (NoSuchFile variant and the silent variant with a spurious old-path file);
  * harmless: finish_deletions rewritten with a pop() loop - stays clean.
+Improvement round (worktree with /var/tmp/imp-C43C44/c43/C43-upload-fixes.patch applied): urlutils.escape dropped from
+_up_put_bytes / _up_rename / _up_delete (each caught by the odd-names script and by generated sequences: a
+percent name lands elsewhere, a non-ASCII name raises InvalidURL), Globster fed only the wildcard-free patterns
+(glob-ignore script: "ignored remote paths were modified", first seen on the FULL upload - the ignored-unchanged
+oracle now covers full uploads), harmless: the file/symlink branches of the removal loop merged - stays clean.
 """
 import fnmatch
 import io
@@ -69,15 +85,19 @@ THEOREMS = [
     "reach_core", "rename_into_new_dir_witness", "symlink_families_witness", "renamed_as_file_witness",
     "kind_change_below_renamed_dir_witness", "deferred_deletion_witnesses", "full_upload_keeps_stale_witness", "ignored_rename_boundary_witness", "ignored_never_addressed",
     "full_upload_onto_empty_reaches_tree", "incremental_upload_reaches_tree_partial", "incremental_upload_frame",
-    "upload_sequence_reaches_tree_partial", "special_file_removed_witness",
+    "upload_sequence_reaches_tree_partial", "full_upload_idempotent", "full_upload_twice",
+    "special_file_removed_witness", "unescaped_symlink_witness",
 ]
 RULE = ("case = one upload: (remote listing before, tree delta the uploader computes, new tree, ignore list, mode "
-        "incremental | full | overwrite-jump); sequences of 4-7 commits of 1-3 random edits over 5 names; "
-        "non-trivial = the delta has >= 2 entries or a rename; distinct by the canonical model input line")
+        "incremental | full | overwrite-jump); 26 pinned sequences, then sequences of 4-7 commits of 1-3 random edits "
+        "over 8 names (3 of them need URL escaping); non-trivial = the delta has >= 2 entries or a rename; distinct by "
+        "the canonical model input line; plus one treeWF and - for rename-free deltas - one deltaOK evaluation per upload")
 ASSUMPTIONS = [
     "the remote is a local directory transport (dromedary LocalTransport); its error kinds are mirrored by the model and compared on every case",
-    "symlink targets are plain names; ignore patterns are plain names (no wildcards)",
-    "`.bzrignore-upload` itself is excluded from the comparison (full uploads skip it, incremental uploads copy it)",
+    "symlink targets are plain names; ignore patterns are plain names or basename globs (`*`, `?`, `[..]` without `/`), "
+    "which the harness expands over the namespace with fnmatch for the model and the oracle",
+    "`.bzrignore-upload` and `.bzrignore` are excluded from the comparison (full uploads skip them, incremental uploads copy them)",
+    "names are prefix-free, so ordering whole paths as strings (finish_renames) and component-wise (model) agree",
 ]
 TRUSTED = ["the rose-tree model of the transport operations (Model/C43.lean), validated against the real transport on every case",
            "Tree.changes_from (the delta is taken from the real code, not recomputed by the model)"]
@@ -92,8 +112,9 @@ FAMILIES = {
     "rename-onto-deleted-directory-readerror": "an entry takes the path of a directory removed in the same delta; the deferred rmdir runs after finish_renames: ReadError",
     "delete-directory-with-ignored-content-directorynotempty": "a removed directory still holds ignored remote content: the deferred rmdir raises DirectoryNotEmpty",
     "full-upload-keeps-stale-paths": "upload --full onto an existing remote never deletes paths that left the tree",
-    "symlink-path-not-url-escaped-invalidurl": "upload_symlink hands link and target path to Transport.symlink without urlutils.escape: a symlink whose path or target path has a non-ASCII character or a percent sign cannot be uploaded: InvalidURL",
-    "special-file-removed-or-renamed-after-full-upload-nosuchfile": "`.bzrignore` / `.bzrignore-upload` is removed, renamed or changes kind in a revision uploaded incrementally after a full upload, which never copied it: NoSuchFile",
+    "symlink-path-not-url-escaped": "upload_symlink hands link and target path to Transport.symlink without urlutils.escape: a symlink whose path or target path has a non-ASCII character cannot be uploaded (InvalidURL); one with a percent sign is rejected too or lands at the percent-decoded path",
+    "special-file-removed-after-full-upload-nosuchfile": "`.bzrignore` / `.bzrignore-upload` is removed (or changes kind) in a revision uploaded incrementally after a full upload, which never copied it: NoSuchFile",
+    "special-file-renamed-after-full-upload-nosuchfile": "`.bzrignore` / `.bzrignore-upload` is renamed in a revision uploaded incrementally after a full upload, which never copied it: NoSuchFile",
 }
 
 NAMES = ["a", "b", "d", "e", "f"]
@@ -491,17 +512,32 @@ _ESCAPES = [True]
 
 
 def bad_links(ents):
-    """the symlink entries `upload_symlink` cannot create because it does not escape its paths (probed): the
-    link path or the target path (normpath(dirname(link)/target)) has a non-ASCII character or a percent sign"""
+    """the symlink entries `upload_symlink` mishandles because it does not escape its paths (probed), with what
+    the transport does instead: [(link path, None = InvalidURL | path the link is created at)].  The
+    transport rejects non-ASCII characters and percent-decodes both paths; Transport.symlink then insists on
+    the (decoded) target lying below the (decoded) link's directory."""
     if _ESCAPES[0]:
         return []
+    from breezy import urlutils
     out = []
     for p, v in ents:
-        if v[0] == "l":
-            tp = os.path.normpath(os.path.join(os.path.dirname(p), v[1]))
-            if any(ord(ch) > 127 or ch == "%" for ch in p + tp):
-                out.append(p)
+        if v[0] != "l":
+            continue
+        tp = os.path.normpath(os.path.join(os.path.dirname(p), v[1]))
+        if any(ord(ch) > 127 for ch in p + tp):
+            out.append((p, None))
+        elif "%" in p + tp:
+            p2, t2 = urlutils.unescape(p), urlutils.unescape(tp)
+            d2 = os.path.dirname(p2)
+            if d2 and not (t2 == d2 or t2.startswith(d2 + "/")):
+                out.append((p, None))
+            elif p2 != p:
+                out.append((p, p2))
     return out
+
+
+def enc_bad(ents):
+    return ",".join("%s=%s" % (tokp(p), "!" if q is None else tokp(q)) for p, q in bad_links(ents)) or "-"
 
 
 def probe_variant(ctx):
@@ -611,11 +647,14 @@ def classify(mode, err, delta, ents, before, names, got, exp, from_kinds):
 
     ren = [(c.path[0], c.path[1]) for c in delta.renamed
            if not (is_ign(names, c.path[0]) and is_ign(names, c.path[1]))] if delta is not None else []
-    if err == "InvalidURL":
-        created = set(tree) if mode == "full" else {c.path[1] for c in list(delta.added) + list(delta.copied)
-                                                    + list(delta.modified) + list(delta.kind_changed)}
-        if any(p in created and not is_ign(names, p) for p in bad_links(ents)):
-            return "symlink-path-not-url-escaped-invalidurl"
+    created = set(tree) if mode == "full" else {c.path[1] for c in list(delta.added) + list(delta.copied)
+                                                + list(delta.modified) + list(delta.kind_changed)}
+    hit = [(p, q) for p, q in bad_links(ents) if p in created and not is_ign(names, p)]
+    if hit and (err == "InvalidURL" or any(q is not None for _p, q in hit)):
+        # InvalidURL, or the link was created / looked for at the percent-decoded path (NoSuchFile, FileExists, or
+        # a stray link): run() keeps the family only if the model - told what the transport does with these
+        # paths - predicts exactly the observed outcome
+        return "symlink-path-not-url-escaped"
     if mode != "full":
         if err == "NoSuchFile":
             added = {c.path[1] for c in list(delta.added) + list(delta.copied)}
@@ -627,8 +666,11 @@ def classify(mode, err, delta, ents, before, names, got, exp, from_kinds):
                         return "rename-into-directory-not-yet-created"
                     parent = os.path.dirname(parent)
         if err == "NoSuchFile" and any(c.path[0] in SPECIAL and c.path[0] not in before and not is_ign(names, c.path[0])
-                                        for c in list(delta.removed) + list(delta.renamed) + list(delta.kind_changed)):
-            return "special-file-removed-or-renamed-after-full-upload-nosuchfile"
+                                        for c in list(delta.removed) + list(delta.kind_changed)):
+            return "special-file-removed-after-full-upload-nosuchfile"
+        if err == "NoSuchFile" and any(c.path[0] in SPECIAL and c.path[0] not in before and not is_ign(names, c.path[0])
+                                        for c in delta.renamed):
+            return "special-file-renamed-after-full-upload-nosuchfile"
         removed_dirs = {c.path[0] for c in delta.removed if c.kind[0] == "directory" and not is_ign(names, c.path[0])}
         if err == "ReadError" and any(n in removed_dirs for _, n in ren):
             return "rename-onto-deleted-directory-readerror"
@@ -762,7 +804,7 @@ def one_upload(ctx, wt, remote, rid, mode, case):
     line = "up %s %s %s %s %s %s" % (
         "full" if eff_mode == "full" else "inc", _VARIANT[0], ",".join(tokp(n) for n in names) or "-", enc_fs(before),
         enc_listing(ents), enc_delta(delta) if delta is not None else "-&-&-&-&-")
-    line += " " + (",".join(tokp(p) for p in bad_links(ents)) or "-")
+    line += " " + enc_bad(ents)
     # the hypotheses of the upload theorems, evaluated by the model on the real data: every revision tree is
     # `treeWF`; every real delta in which nothing is renamed (outside ignored paths) and the two special files
     # are neither removed nor changed in kind is `deltaOK`
@@ -839,6 +881,7 @@ SCRIPTS = {
     # ... and symlinks at such names (`upload_symlink` is the one operation that does not escape)
     "odd-symlink-added": [[("file", "a", "1")], [("ln", "\u00fc", "t1"), ("file", "a", "11")]],
     "odd-symlink-full": [[("mkdir", "d"), ("ln", "d/i%2Fj", "t1"), ("file", "f", "1")]],
+    "odd-symlink-percent-decoded": [[("mkdir", "d"), ("file", "f", "1")], [("ln", "d/x%41", "t1")]],
     # ignore patterns with wildcards (the real Globster sees the patterns, model and oracle their expansion)
     "glob-ignore": [[("file", IGNFILE, "g*\n[bd]"), ("file", "g h", "1"), ("file", "a", "2"), ("file", "b", "3"),
                      ("mkdir", "e"), ("file", "e/d", "4"), ("file", "e/f", "5")],
@@ -974,10 +1017,14 @@ def flush_pending(ctx):
     if not pend:
         return
     outs = ctx.model([p[0] for p in pend])
+    final = []
     for (line, impl, case, what, fam), m in zip(pend, outs):
         if fam is not None and m != impl:
             ctx.count("family-rejected-outcome-differs-from-model:" + fam)
             fam = None
+        final.append((case, what, fam))
+    # violations outside every family first: run.py reports the first one that is no committed known finding
+    for case, what, fam in sorted(final, key=lambda v: v[2] is not None):
         _violation(ctx, case, what, family=fam)
 
 
